@@ -372,6 +372,10 @@ fn run_desc(out: &mut Out, thorough: bool, rng: &mut Rng) {
             Thresh(2, vec![tpk(i), Swap(bx(tpk((i + 1) % 8))), Swap(bx(tpk((i + 2) % 8)))]),
             AndV(bx(Verify(bx(tpk(i)))), bx(Hash(HK::Hash160, 1))),
             OrI(bx(tpk(i)), bx(AndV(bx(Verify(bx(tpk((i + 1) % 8)))), bx(Older(10))))),
+            // the two satisfier modes differ when the preimage is not held: the hash child is a
+            // signature-free alternative (non-malleable mode declines, malleable mode must spend)
+            Thresh(2, vec![tpk(i), Swap(bx(tpk((i + 1) % 8))),
+                Swap(bx(NonZero(bx(AndV(bx(Verify(bx(Hash(HK::Sha256, 0)))), bx(True))))))]),
         ]
     };
     for shape in SHAPES {
@@ -394,6 +398,15 @@ fn run_desc(out: &mut Out, thorough: bool, rng: &mut Rng) {
             if ws.len() != leaves.len() { out.count("tr assignment with repeated leaf skipped"); continue; }
             match dcase_tr(9, shape, &leaves) { Some(c) => cases.push(c), None => out.count("desc not built tr") }
             if n == 0 { break; }
+        }
+    }
+    // designated: the two satisfier modes must differ (sigs for two thresh children, preimage
+    // of the third not held; the other leaf's key not held either)
+    {
+        let mode_leaf = Thresh(2, vec![tpk(0), Swap(bx(tpk(1))),
+            Swap(bx(NonZero(bx(AndV(bx(Verify(bx(Hash(HK::Sha256, 0)))), bx(True))))))]);
+        for (shape, leaves) in [("0", vec![mode_leaf.clone()]), ("{0,1}", vec![tpk(5), mode_leaf.clone()]), ("{0,1}", vec![mode_leaf.clone(), tpk(5)])] {
+            match dcase_tr(9, shape, &leaves) { Some(c) => cases.push(c), None => out.count("desc not built tr (designated)") }
         }
     }
     let mut n_cases = 0u64;
